@@ -7,6 +7,10 @@ ID = "C12"
 MODULE = "C12"
 IMPORTS = "Bytes RustInt Limiter LimiterProofs"
 PROFILES = ("dev", "nochk")
+FEATURES = ("hooks",)       # the accept loop's hook points: accept errors are provoked and counted on the real listener
+# cases whose real-time schedule could not be kept (or whose server could not be started) after 3 attempts in the
+# harness and 3 runs of the harness are not executed; more than this many fail the run as a harness error
+MAX_NOT_EXECUTED = 6
 USIZE_MAX = 2**64 - 1
 HOUR = 3600 * 1000          # ms
 R_SHORT = 600               # ms: the only reset time that a run actually crosses
@@ -131,6 +135,12 @@ THEOREMS = [
     ("server_refines_reference",
      "forall (checked : bool) (sc : sconfig) (t0 : N) (cs : list connection), "
      "fits (calls_bound cs) -> accept_loop checked sc t0 (map conn_of cs) = (spec_server sc t0 cs, Running)"),
+    ("server_events_refine_reference",
+     "forall (checked : bool) (sc : sconfig) (t0 : N) (evs : list conn_event), "
+     "fits (ev_calls_bound evs) -> accept_loop checked sc t0 evs = spec_server_events sc t0 evs"),
+    ("reference_server_events_meaning",
+     "forall (sc : sconfig) (t0 : N), (forall evs, snd (spec_server_events sc t0 evs) = loop_spec 0 evs) /\\ "
+     "(forall cs, spec_server_events sc t0 (map conn_of cs) = (spec_server sc t0 cs, Running))"),
     ("listener_dies_063_refuted",
      "let sc := same_limiter {| max_requests := 0; check_every := 1; reset_after := Some 10000 |} in "
      "accept_loop_063 true sc 0 [Conn 1 0 []; Conn 2 1 [1]] = ([Served [] true; Refused], ReturnedOk) /\\ "
@@ -248,9 +258,20 @@ def srv(mx, ce, reset, conns, kind, profile="dev", path=0, pre=None, bind=0):
     else:
         xp = xl(xn(0 if pre[0] == "own" else 1), cfg(pre[1], pre[2], pre[3]))
     sconf = xl(xn(path), cfg(mx, ce, reset), xp, xn(bind))
-    xc = [xl(xn(c[0]), xn(c[1]), xn(c[2])) if len(c) == 3 else xl(xn(c[0]), xn(c[1]), xn(c[2]), xn(c[3])) for c in conns]
+    xc = [xev(c) for c in conns]
     meta = {"kind": kind, "host": (mx, ce, reset), "pre": pre, "conns": conns}
+    if any(isinstance(c[0], str) for c in conns):
+        return [Case("limiter.server_ev", xl(xbool(profile == "dev"), sconf, xlist(xc)), "limiter.server_ev_spec", meta, profile)]
     return [Case("limiter.server", xl(xbool(profile == "dev"), sconf, xlist(xc)), "limiter.server_spec", meta, profile)]
+
+
+def xev(c):
+    """(addr, wait_ms, nreq[, times]) a connection | ("errs", n) the next n calls of accept() fail | ("shutdown",)"""
+    if c[0] == "errs":
+        return xl(xn(200), xn(c[1]))
+    if c[0] == "shutdown":
+        return xl(xn(201))
+    return xl(xn(c[0]), xn(c[1]), xn(c[2])) if len(c) == 3 else xl(xn(c[0]), xn(c[1]), xn(c[2]), xn(c[3]))
 
 
 ADDRS = [0x7F000001, 0x7F000002, 0x0A000001, 2**127 + 5, 0, 2**32 - 1, 2**32, 2**128 - 1]
@@ -450,11 +471,65 @@ def gen_server(rng, quick):
     return cases
 
 
+def gen_events(rng, quick):
+    """Accept errors (EMFILE on the real listener, counted by the hook points of the accept loop) and shutdown requests
+    between the connections: every constant of the error arm (threshold 100, reset of the failure counter by an accepted
+    connection BEFORE the limiter is asked, `>` not `>=`) and the two ways in which the loop may end."""
+    cases = []
+    k = 0
+    mx = 2
+    to_drop = [(0, 0, 3 * mx + 4)]          # 127.0.0.1 reaches the drop level
+    for n in (1, 2, 50, 99, 100):
+        k += 1
+        cases += srv(mx, 1, HOUR, [(0, 0, 1), ("errs", n), (1, 0, 2), (0, 0, 1)], "server-accept-errors", PROFILES[k % 2], path=k % 2)
+    # the failure counter starts again with every accepted connection: 100 + 100 + 100 never end the loop
+    cases += srv(mx, 1, HOUR, [(0, 0, 1), ("errs", 100), (1, 0, 1), ("errs", 100), (1, 0, 1), ("errs", 100), (2, 0, 1)], "server-accept-errors")
+    # ... also when that connection is dropped by the limiter (the counter is reset before the limiter is asked)
+    cases += srv(mx, 1, HOUR, to_drop + [("errs", 60), (0, 0, 1), ("errs", 60), (1, 0, 1), ("errs", 100), (0, 0, 1), ("errs", 100), (1, 0, 1)],
+                 "server-accept-errors", "nochk", path=1)
+    # more than the threshold in a row: the loop ends (the only way besides shutdown), everybody is refused afterwards
+    for n in (101, 102, 150) if quick else (101, 102, 150, 200, 1000, 5000):
+        k += 1
+        cases += srv(mx, 1, HOUR, [(0, 0, 1), ("errs", n), (1, 0, 1), (0, 0, 1), (2, 0, 1)], "server-accept-errors-fatal", PROFILES[k % 2], path=k % 2)
+    cases += srv(mx, 1, HOUR, [(0, 0, 1), ("errs", 100), (1, 0, 1), ("errs", 101), (1, 0, 1), (2, 0, 1)], "server-accept-errors-fatal")
+    cases += srv(mx, 1, HOUR, to_drop + [(0, 0, 1, 5), ("errs", 101), (1, 0, 1), (1, 0, 1)], "server-accept-errors-fatal", "nochk")
+    # two batches without a connection between them add up
+    cases += srv(mx, 1, HOUR, [(0, 0, 1), ("errs", 50), ("errs", 50), (1, 0, 1), ("errs", 51), ("errs", 50), (1, 0, 1), (2, 0, 1)], "server-accept-errors-fatal")
+    # shutdown: the other way; before it everybody is served, after it everybody is refused
+    for bind in (0, 1):
+        cases += srv(mx, 1, HOUR, [(0, 0, 2), (1, 0, 1), ("shutdown",), (1, 0, 1), (0, 0, 1)], "server-shutdown", PROFILES[bind], path=bind, bind=bind)
+    cases += srv(mx, 1, HOUR, to_drop + [(0, 0, 1, 3), (1, 0, 1), ("shutdown",), (1, 0, 1)], "server-shutdown")
+    cases += srv(mx, 1, HOUR, [(0, 0, 1), ("errs", 100), (1, 0, 1), ("shutdown",), (1, 0, 1)], "server-shutdown")
+    for i in range(6 if quick else 60):
+        mx = rng.choice([0, 1, 2, 5])
+        ce = rng.choice([1, 1, 2])
+        evs = [(0, 0, 1)]
+        alive = True
+        for _ in range(rng.randrange(3, 9)):
+            r = rng.random()
+            if r < 0.35:
+                evs.append(("errs", rng.choice([1, 3, 10, 50, 99, 100, 100, 101, 120]) if rng.random() < 0.8 else rng.randrange(1, 140)))
+                evs.append((rng.randrange(0, 3), 0, rng.choice([1, 2, 3 * mx + 3])))
+            elif r < 0.42 and alive:
+                evs.append(("shutdown",))
+                alive = False
+            else:
+                c = (rng.randrange(0, 3), 0, rng.choice([1, 1, 2, 3 * mx + 3]))
+                evs.append(c + (rng.randrange(2, 8),) if rng.random() < 0.2 else c)
+        if not alive:       # accept errors cannot be provoked on a closed listener: none after the shutdown request
+            cut = next(n for n, e in enumerate(evs) if e[0] == "shutdown")
+            evs = evs[:cut + 1] + [e for e in evs[cut + 1:] if e[0] != "errs"]
+        cases += srv(mx, ce, HOUR, evs, "server-events-random", PROFILES[i % 2], path=i % 2,
+                     pre=rng.choice([None, None, ("own", rng.randrange(0, 4), 1, HOUR), ("clone", rng.randrange(0, 4), 1, HOUR)]))
+    return cases
+
+
 def generate(rng, tier):
     quick = tier == "quick"
     cases = []
     # ---- the real-server runs that wait for the reset interval first: they spread over the shards -------
     cases += gen_server(rng, quick)
+    cases += gen_events(rng, quick)
     # ---- corpus: the finding of this property ------------------------------------------------------
     cases += srv(2, 1, HOUR, [(0, 0, 8), (0, 0, 1), (1, 0, 1), (1, 0, 1)], "corpus")
     cases += srv(0, 1, HOUR, [(0, 0, 1), (1, 0, 1)], "corpus")
@@ -562,7 +637,8 @@ class _Cfg:
 
 
 def py_server(host, pre, conns):
-    """Expected result per connection: ('served', [statuses], cut).  Nobody is ever refused."""
+    """Expected result per connection: ([statuses], cut) — or "refused" once the listener has been asked to shut down or
+    has seen more than 100 failed calls of accept() in a row with no accepted connection between them."""
     hl = PyLimiter(*host)
     hc = _Cfg(*host)
     if pre is None:
@@ -572,10 +648,22 @@ def py_server(host, pre, conns):
     else:
         pl, pc = PyLimiter(*pre[1:]), _Cfg(*pre[1:])
     now, out = 0, []
+    fails, ended = 0, False
     for c in conns:
+        if c[0] == "errs":
+            fails += c[1]
+            ended = ended or fails > 100
+            continue
+        if c[0] == "shutdown":
+            ended = True
+            continue
         a, dt, nreq = c[0], c[1], c[2]
         now += dt
         for _ in range(c[3] if len(c) > 3 else 1):
+            if ended:
+                out.append("refused")
+                continue
+            fails = 0
             if pl.register(a, now, pc) == 2:
                 out.append(([], 1))
                 continue
@@ -602,6 +690,8 @@ def _parse_server(i):
         f = r[1]
         if num(f[0]) == 3:
             res.append("refused")
+        elif num(f[0]) == 4:
+            res.append(("no reaction", [num(t) for t in f[1][1]]))
         else:
             res.append(([num(t) for t in f[1][1]], num(f[2])))
     return res, num(v[1][1])
@@ -615,25 +705,35 @@ def extra_oracle(c, i):
             return ("decisions differ from the reference ladder computed from the configuration current at each call: "
                     "expected %s" % want[:400])
         return None
-    if c.comp == "limiter.server" and "conns" in c.meta:
+    if c.comp in ("limiter.server", "limiter.server_ev") and "conns" in c.meta:
         try:
             got, alive = _parse_server(i)
         except Exception as e:        # noqa: BLE001
             return "unreadable server outcome: %r" % (e,)
-        want = py_server(c.meta["host"], c.meta["pre"], c.meta["conns"])
-        # (a) availability, stated without any counter: nobody is refused, the port accepts at the end
+        conns = c.meta["conns"]
+        want = py_server(c.meta["host"], c.meta["pre"], conns)
+        # (a) availability, stated without any counter.  The server reacts to everybody (an answer or a close) ...
         for n, g in enumerate(got):
-            if g == "refused":
-                return "connection #%d was refused: the listener stopped accepting" % (n + 1)
-        if alive != 1:
-            return "nobody accepts on the port at the end of the history"
+            if isinstance(g, tuple) and g[0] == "no reaction":
+                return ("connection #%d: the server neither answered nor closed the connection (observed three times, waiting 8, "
+                        "12 and 20 s); answers before: %r" % (n + 1, g[1]))
+        if alive == 4:
+            return "at the end of the history a new connection is neither answered nor closed: the accept loop is blocked"
+        # ... and nobody is refused unless the listener was asked to shut down or accept() failed more than 100 times in a row
+        may_end = any(cc[0] == "shutdown" for cc in conns) or _max_err_run(conns) > 100
+        if not may_end:
+            for n, g in enumerate(got):
+                if g == "refused":
+                    return "connection #%d was refused: the listener stopped accepting" % (n + 1)
+            if alive != 1:
+                return "nobody accepts on the port at the end of the history"
         # (b) the bystander: an address none of whose calls so far exceeds any configured maximum is served 200 every time
-        flat = [(cc[0], cc[2]) for cc in c.meta["conns"] for _ in range(cc[3] if len(cc) > 3 else 1)]
+        flat = [(cc[0], cc[2]) for cc in conns if not isinstance(cc[0], str) for _ in range(cc[3] if len(cc) > 3 else 1)]
         limit = min([c.meta["host"][0]] + ([c.meta["pre"][1]] if c.meta["pre"] else []))
         calls = {}
-        for n, ((a, nreq), g) in enumerate(zip(flat, got)):
+        for n, ((a, nreq), g, w) in enumerate(zip(flat, got, want)):
             calls[a] = calls.get(a, 0) + 1 + nreq
-            if calls[a] <= limit and g != ([200] * nreq, 0):
+            if w != "refused" and calls[a] <= limit and g != ([200] * nreq, 0):
                 return ("bystander not served: connection #%d of 127.0.0.%d (its %d calls so far are within every maximum, %d) got %r"
                         % (n + 1, a + 1, calls[a], limit, g))
         # (c) every answer equals the reference ladder
@@ -641,7 +741,35 @@ def extra_oracle(c, i):
             n = next((n for n, (g, w) in enumerate(zip(got, want)) if g != w), min(len(got), len(want)))
             return "connection #%d: got %r, the reference ladder of the current configuration gives %r" % (
                 n + 1, got[n] if n < len(got) else None, want[n] if n < len(want) else None)
+        if alive != (0 if want and want[-1] == "refused" or (may_end and _ended(conns)) else 1):
+            return "at the end of the history the port %s" % ("still accepts although the listener was shut down / had failed"
+                                                              if alive == 1 else "no longer accepts")
     return None
+
+
+def _max_err_run(conns):
+    run = best = 0
+    for c in conns:
+        if c[0] == "errs":
+            run += c[1]
+            best = max(best, run)
+        elif c[0] != "shutdown":
+            run = 0
+    return best
+
+
+def _ended(conns):
+    run = 0
+    for c in conns:
+        if c[0] == "shutdown":
+            return True
+        if c[0] == "errs":
+            run += c[1]
+            if run > 100:
+                return True
+        else:
+            run = 0
+    return False
 
 
 def signature(c, m):
